@@ -153,16 +153,28 @@ func runDB(p *dbProgram, st *stats) (fs []finding) {
 				name = "db.Iterate"
 				c.exp, c.full = m.Prefix(o.Key, o.Limit, o.Rev), m.Prefix(o.Key, -1, o.Rev)
 				pk, pm = guard(func() { got = fromDB(h.Iterate(o.Key, o.Limit, o.Rev)) })
+				c.unlimited = func() (u []kvmodel.KV) {
+					guard(func() { u = fromDB(h.Iterate(o.Key, -1, o.Rev)) })
+					return u
+				}
 			case "iteratekey":
 				name = "db.IterateKey"
 				c.keysOnly = true
 				c.exp, c.full = m.Prefix(o.Key, o.Limit, o.Rev), m.Prefix(o.Key, -1, o.Rev)
 				pk, pm = guard(func() { got = fromKeys(h.IterateKey(o.Key, o.Limit, o.Rev)) })
+				c.unlimited = func() (u []kvmodel.KV) {
+					guard(func() { u = fromKeys(h.IterateKey(o.Key, -1, o.Rev)) })
+					return u
+				}
 			default:
 				name = "db.IterateRange:dir=" + dirName(o.Rev)
 				c.isRange, c.end, c.fullEnd = true, o.End, o.End
 				c.exp, c.full = m.Range(o.Start, o.End, o.Limit, o.Rev), m.Range(o.Start, o.End, -1, o.Rev)
 				pk, pm = guard(func() { got = fromDB(h.IterateRange(o.Start, o.End, o.Limit, o.Rev)) })
+				c.unlimited = func() (u []kvmodel.KV) {
+					guard(func() { u = fromDB(h.IterateRange(o.Start, o.End, -1, o.Rev)) })
+					return u
+				}
 				if o.Rev && allFF(o.End) {
 					st.feat("rev-end-ff")
 				}
